@@ -52,6 +52,13 @@ def configs(tier):
             for parallel in (False, True):
                 for bs in (None, 1, 2):
                     out.append(dict(dag=d, optimize=optimize, parallel=parallel, batch_size=bs))
+    # the same scheduler driven through cubed's own create-futures functions (threads: run_func_threads;
+    # processes: cloudpickle + unpickle_and_call) over a held pool
+    for d in names:
+        for fut in ("threads", "processes"):
+            for parallel in (False, True):
+                for bs in (None, 2):
+                    out.append(dict(dag=d, optimize=False, parallel=parallel, batch_size=bs, futures=fut))
     return out
 
 
@@ -74,7 +81,8 @@ def run_once(cfg, chooser, seed=0, executor=None, fp=False):
         if d.get("store"):
             tgt = world.store("tgt")
             arrs = list(cubed.store(arrs, [tgt], compute=False))
-        ex = executor or VirtualExecutor(world, chooser=chooser, overlay=True, parallel=cfg["parallel"], batch_size=cfg["batch_size"])
+        ex = executor or VirtualExecutor(world, chooser=chooser, overlay=True, parallel=cfg["parallel"], batch_size=cfg["batch_size"],
+                                         real_futures=cfg.get("futures"))
         if fp and executor is None:
             ex.chooser = FpChooser(chooser, [ex])
         mark = world.mark()
@@ -166,7 +174,7 @@ def conformance(item):
 
 
 def sig(cfg, kind):
-    return dict(kind=kind, parallel=cfg["parallel"], batching=cfg["batch_size"] is not None, dag=cfg["dag"])
+    return dict(kind=kind, parallel=cfg["parallel"], batching=cfg["batch_size"] is not None, dag=cfg["dag"], futures=cfg.get("futures"))
 
 
 def replay_case(case):
